@@ -203,6 +203,48 @@ def main(tier, seed):
                 if line.startswith("Q "):
                     f = line.split()
                     results.setdefault((int(f[1]), f[2], f[3]), {})[cfg] = kv(line)
+    # the same questions with other C++ types of the same width and signedness (long long for int64_t = long, plain char /
+    # signed char for int8_t, ...): the answer may depend on width and signedness only
+    ALT = {"i64": ["long long"], "u64": ["unsigned long long"], "i8": ["char", "signed char"], "u8": ["unsigned char"], "i16": ["short"],
+           "u16": ["unsigned short"], "i32": ["int"], "u32": ["unsigned"]}
+    altc = [k for k in results if k[1] in ALT and k[2] in ALT and "g++ -std=c++14" in results[k]]
+    rng.shuffle(altc)
+    altc = altc[: (160 if tier == "quick" else 1500)]
+    if altc:
+        lines = [PRELUDE]
+        for ri in sorted({ri for ri, _, _ in altc}):
+            lines.append(f"using M{ri} = decltype({cxx_mag(ratios[ri])});")
+        lines.append("int main() {")
+        alt_pick = {}
+        for j, (ri, r2, r1) in enumerate(altc):
+            a2, a1 = rng.choice(ALT[r2] + [CT[r2]]), rng.choice(ALT[r1])
+            alt_pick[j] = (a2, a1)
+            lines.append(f'  printf("A {j} conv=%d ctor=%d\\n", '
+                         f"int(std::is_convertible<au::Quantity<Scaled<M{ri}>, {a1}>, au::Quantity<VBase, {a2}>>::value), "
+                         f"int(std::is_constructible<au::Quantity<VBase, {a2}>, au::Quantity<Scaled<M{ri}>, {a1}>>::value));")
+        lines.append("  return 0;\n}")
+        ap = os.path.join(wd, "alt_types.cc")
+        open(ap, "w").write("\n".join(lines))
+        rc, out = cxx(ap, os.path.join(wd, "alt_types"), san=False, opt="-O0", extra=["-fconstexpr-ops-limit=1000000000"])
+        if rc != 0:
+            violations.append({"what": "trait questions with long long / char / short operands do not compile (the policy predicate is not total for "
+                                       "these arithmetic types)", "class": "totality-alt", "no_input": True, "broken": "harness / totality",
+                               "rec": {"kind": "build", "errors": [l for l in out.split("\n") if "error" in l][:3]}})
+        else:
+            stats["alt_type_questions"] = 0
+            for line in run([os.path.join(wd, "alt_types")])[1].split("\n"):
+                if line.startswith("A "):
+                    j = int(line.split()[1])
+                    r = kv(line)
+                    ri, r2, r1 = altc[j]
+                    ref = results[(ri, r2, r1)]["g++ -std=c++14"]
+                    stats["alt_type_questions"] += 1
+                    if r["conv"] != ref["conv"] or r["ctor"] != ref["ctor"]:
+                        a2, a1 = alt_pick[j]
+                        ms = aulib.pack_str(ratios[ri], "mag")
+                        violations.append({"what": f"is_convertible<Quantity<U*({ms}), {a1}>, Quantity<U, {a2}>> = {r['conv']} but the same question with "
+                                                   f"{CT[r1]} / {CT[r2]} (same width and signedness) answers {ref['conv']}", "class": "alt-type",
+                                           "rec": {"kind": "alt-type", "ratio": ms, "R1": r1, "R2": r2, "alt1": a1, "alt2": a2, "impl": r, "ref": ref}})
     drv = Driver()
     keys = sorted(results)
     ans = drv.ask([f"policy {r2} {r1} 1 {aulib.pack_str(ratios[ri], 'mag')}" for (ri, r2, r1) in keys])
